@@ -905,7 +905,7 @@ func runC07(args []string) error {
 	if err := os.MkdirAll(*out, 0o755); err != nil {
 		return err
 	}
-	h := &c07h{sm: newSummary("C07"), timeout: 6 * time.Second}
+	h := &c07h{sm: newSummary("C07"), timeout: 30 * time.Second}
 	nA, nB := 260, 200
 	nReg := 3
 	if *tier == "thorough" {
